@@ -1588,6 +1588,9 @@ func (x *Exec) step(p *Path, in ssa.Instruction) {
 		iv := x.val(p, in.Index)
 		if _, ok := in.X.Type().Underlying().(*types.Map); ok {
 			v, dom := e.mapLoad(p, nil, in.X.Type(), xv.S, iv.S)
+			if xv.Own != nil && v.Own == nil {
+				v.Own = xv.Own
+			}
 			x.guardCheckMap(p, xv, false, in)
 			e.assumeRange(p, v)
 			if in.CommaOk {
@@ -1621,7 +1624,7 @@ func (x *Exec) step(p *Path, in ssa.Instruction) {
 			vis := e.fresh("visited", arrSort(ks, "Bool"))
 			p.assume(eq(vis, "((as const "+arrSort(ks, "Bool")+") false)"))
 			p.cells[cell] = Val{K: KGhostMap, S: vis, GK: ks, GV: "Bool", T: in.X.Type(), Label: xv.S}
-			set(in, Val{K: KIter, T: in.X.Type(), S: xv.S, A: &Addr{Kind: ALocal, Cell: cell}})
+			set(in, Val{K: KIter, T: in.X.Type(), S: xv.S, A: &Addr{Kind: ALocal, Cell: cell}, Own: xv.Own})
 			return
 		}
 		x.errorf("range over %v unsupported in %s", in.X.Type(), fr.fn)
@@ -1640,6 +1643,9 @@ func (x *Exec) step(p *Path, in ssa.Instruction) {
 		kv := e.freshVal(p, mm.Key(), "next_key")
 		dom := e.mapDom(p, nil, mt, it.S)
 		val, _ := e.mapLoadX(p, nil, mt, it.S, kv.S, true)
+		if it.Own != nil {
+			val.Own = it.Own
+		}
 		e.assumeRange(p, val)
 		ksort := e.sortOf(mm.Key())
 		// ok: k is a current key not yet visited; !ok: every current key has been visited
